@@ -106,8 +106,12 @@ fn restrict_val(v: &mut Val) {
     }
 }
 
+thread_local! {
+    static CUR_ORIGIN: std::cell::RefCell<String> = const { std::cell::RefCell::new(String::new()) };
+}
 fn rp17(kind: &str, schema: &OwnedDataModelType, bytes: &[u8], json: &Value) -> Vec<(String, String)> {
-    vec![kv("kind", kind), kv("shape", owned_to_shape(schema).text()), kv("schema", format!("{:?}", schema)), kv("static_bytes", hex(bytes)), kv("json", json.to_string())]
+    let origin = CUR_ORIGIN.with(|o| o.borrow().clone());
+    vec![kv("kind", kind), kv("origin", origin), kv("shape", owned_to_shape(schema).text()), kv("schema", format!("{:?}", schema)), kv("static_bytes", hex(bytes)), kv("json", json.to_string())]
 }
 
 /// Classify a C17 disagreement by the feature involved (exact signatures for known-findings matching).
@@ -145,6 +149,7 @@ fn classify17(shape: &Shape, val: &Val) -> &'static str {
 }
 
 fn c17_case(t: &mut Tctx, schema: &OwnedDataModelType, shape: &Shape, val: &Val, static_bytes: &[u8], json: &Value, origin: &str) {
+    CUR_ORIGIN.with(|o| *o.borrow_mut() = origin.to_string());
     t.st.eval();
     t.st.nontrivial(fp_mix(fp(format!("{:?}", schema).as_bytes()), fp(static_bytes)));
     let class = classify17(shape, val);
@@ -727,6 +732,17 @@ pub fn replay(cfg: &Cfg, prop: &str) -> Report {
     let p = cfg.replay.clone().unwrap();
     let m = read_replay(&p).unwrap_or_default();
     let prop_s = prop.to_string();
+    // cases that come from a concrete Rust type carry that type's schema as derived at the time; the
+    // schema itself may be what was wrong, so these are reproduced by re-running the (sub-second) check
+    if prop == "C17" {
+        let origin = m.get("origin").cloned().unwrap_or_default();
+        if !["random shape", "arity 0/1, char, 128-bit", "deep nesting", "replay", ""].contains(&origin.as_str()) {
+            let mut r = run_c17(&Cfg { replay: None, ..cfg.clone() });
+            r.floors.clear();
+            r.rule = format!("replay of a corpus-type case ({}): the whole check is re-run", origin);
+            return r;
+        }
+    }
     let s = parallel(&Cfg { threads: 1, ..cfg.clone() }, 9, |t| {
         let shape = match m.get("shape").map(|s| Shape::parse(s)) {
             Some(Ok(s)) => s,
